@@ -47,10 +47,15 @@ Lemma link_write_calls : C19_Gen.write_calls =
   ["len"; "int64"; "l.rule.ShallRotate"; "l.rotate"; "log.Println"; "l.rule.MarkRotated"; "l.fp.Write"; "len"; "int64"]%string.
 Proof. reflexivity. Qed.
 
-Lemma link_rotate_calls : C19_Gen.rotate_calls =
+Lemma link_rotate_calls :
+  C19_Gen.rotate_calls =
   ["l.fp.Close"; "return"; "os.Stat"; "len"; "l.getBackupFilename"; "os.Rename"; "return"; "l.postRotate";
-   "l.rule.BackupFilename"; "os.Create"; "fs.CloseOnExec"; "return"]%string.
-Proof. reflexivity. Qed.
+   "l.rule.BackupFilename"; "os.Create"; "fs.CloseOnExec"; "return"]%string \/
+  (* with the proposed repair of the failed-rotation finding: the current file is reopened when os.Rename fails *)
+  C19_Gen.rotate_calls =
+  ["l.fp.Close"; "return"; "os.Stat"; "len"; "l.getBackupFilename"; "os.Rename"; "os.OpenFile"; "fs.CloseOnExec";
+   "return"; "l.postRotate"; "l.rule.BackupFilename"; "os.Create"; "fs.CloseOnExec"; "return"]%string.
+Proof. first [left; reflexivity | right; reflexivity]. Qed.
 
 Lemma link_post_rotate_calls : C19_Gen.post_rotate_calls =
   ["go:func"; "{"; "l.maybeCompressFile"; "l.maybeDeleteOutdatedFiles"; "}"]%string.
